@@ -10,12 +10,16 @@ open NoKV NoKV.Conc
 theorem Inv.init (c : SnapCfg) : Inv c initSt :=
   { tmR := .init rfl
     ti := fun _ _ h => by simp [initSt] at h
-    busy := fun h => by simp [initSt, WM.initSt] at h
-    next := by simp [initSt, WM.initSt]
+    busy := fun h => by
+      have : (initSt).tm.sectionBusy = false := WM.init_sectionBusy
+      rw [this] at h; cases h
+    next := by
+      have : (initSt).tm.lastIndex = 0 := WM.init_lastIndex
+      rw [this]; simp [initSt]
     tsLt := fun _ _ h => by simp [initSt] at h
     uniq := fun _ _ _ _ h => by simp [initSt] at h
     owned := fun ts h1 h2 => by simp [initSt] at h2; omega
-    fresh := fun _ _ => by simp [initSt, WM.initSt] }
+    fresh := fun j _ => WM.init_nDoneDec j }
 
 theorem nextTs_pos {c : SnapCfg} {s : St} (h : Inv c s) : 1 ≤ s.nextTs := by
   have := h.next; omega
@@ -67,26 +71,6 @@ theorem Inv.activeStep {c : SnapCfg} {s : St} (h : Inv c s) (tid : Nat) (t t' : 
   · rw [e4]; exact hti.began (e3 ▸ hb)
   · rw [e1]; simp only [PcInv]; rw [e2, e3]; exact hp
 
-theorem spawn_eff' (c : WM.WMCfg) (ct : Bool) (s s' : WM.St) (w : Nat) (k : WM.Kind)
-    (h : WM.step c ct s (actOf w k) = some s') : WM.SpawnEff s s' w k := by
-  cases k with
-  | begin i => exact WM.spawn_eff c ct s s' w (.begin i) h
-  | done i => exact WM.spawn_eff c ct s s' w (.done i) h
-  | wait i => exact WM.spawn_eff c ct s s' w (.wait i) h
-  | adv => exact WM.spawn_eff c ct s s' w .adv h
-
-/-- entering a call does not depend on the contract flag unless it is a `Begin` -/
-theorem step_contract_irrel (c : WM.WMCfg) (s : WM.St) (w : Nat) (k : WM.Kind) (hk : k.isBegin = false) :
-    WM.step c true s (actOf w k) = WM.step c false s (actOf w k) := by
-  cases k with
-  | begin i => simp [WM.Kind.isBegin] at hk
-  | done i => rfl
-  | wait i => rfl
-  | adv => rfl
-
-theorem run_contract_irrel (c : WM.WMCfg) (s : WM.St) (w : Nat) :
-    WM.step c true s (.run w) = WM.step c false s (.run w) := rfl
-
 theorem HasKind.spawn {s s' : St} {w : Nat} {k : WM.Kind} (se : WM.SpawnEff s.tm s'.tm w k) :
     ∀ x K, HasKind s x K → HasKind s' x K := by
   intro x K ⟨wt, hx, hK⟩
@@ -94,23 +78,22 @@ theorem HasKind.spawn {s s' : St} {w : Nat} {k : WM.Kind} (se : WM.SpawnEff s.tm
   exact ⟨wt, by rw [se.oth x this]; exact hx, hK⟩
 
 /-- a thread enters `txnMark.WaitForMark` or `txnMark.Done` -/
-theorem Inv.enterTxn {c : SnapCfg} {s s' : St} (h : Inv c s) (tid : Nat) (t t' : Txn) (kind : WM.Kind)
+theorem Inv.enterTxn {c : SnapCfg} {s s' : St} (h : Inv c s) (tid : Nat) (t t' : Txn) (call : Call)
     (ht : s.thr tid = some t)
     (hthr : ∀ x, s'.thr x = if x = tid then some t' else s.thr x)
-    (hnk : kind.isBegin = false)
-    (hws : WM.step c.wm false s.tm (actOf s.wfresh kind) = some s'.tm)
+    (hnk : call.kind.isBegin = false)
+    (hws : WM.step c.wm false s.tm (call.act s.wfresh) = some s'.tm)
     (e2 : s'.locked = s.locked) (e3 : s'.store = s.store) (e4 : s'.nextTs = s.nextTs)
     (hts : t'.commitTs = t.commitTs)
     (hnb : ∀ w, t.pc ≠ .call .txn w .cRecord)
-    (hself : WM.SpawnEff s.tm s'.tm s.wfresh kind → TI s' tid t') : Inv c s' := by
-  have se := spawn_eff' c.wm false s.tm s'.tm s.wfresh kind hws
+    (hself : WM.SpawnEff s.tm s'.tm s.wfresh call.kind → TI s' tid t') : Inv c s' := by
+  have se := WM.spawn_eff c.wm false s.tm s'.tm s.wfresh call hws
   have hb : s'.tm.sectionBusy = s.tm.sectionBusy := by rw [se.busy, hnk]; simp
   refine h.update tid t t' ht hthr ?_ (by rw [se.du]; exact Nat.le_refl _) (fun _ _ hx => by rw [e2]; exact hx)
     (HasKind.spawn se) (fun _ _ _ _ _ => by rw [se.dec]) (fun _ => by rw [se.cnt]; exact Nat.le_refl _)
     (fun _ he => by rw [e3]; exact he) (hself se) ?_ (by rw [se.last, e4]; exact h.next)
     (fun j hj => by rw [se.dec]; exact h.fresh j (by omega)) (Or.inl ⟨hts, e4⟩)
-  · exact .step h.tmR (a := actOf s.wfresh kind)
-      (by show WM.step c.wm true s.tm _ = _; rw [step_contract_irrel _ _ _ _ hnk]; exact hws)
+  · exact WM.spawn_reach c.wm s.tm s'.tm s.wfresh call hnk h.tmR hws
   · intro hbusy
     rw [hb] at hbusy
     obtain ⟨x, tx, w, wt, hx, hpc, hw, hst⟩ := h.busy hbusy
@@ -133,13 +116,8 @@ theorem PcInv.callKind {s : St} {tid : Nat} {t : Txn} {w : Nat} {k : Pc}
 theorem Inv.tmRun {c : SnapCfg} (hcf : c.wm.countsFirst = true) {s : St} (h : Inv c s) (tid : Nat) (t : Txn)
     (w : Nat) (k : Pc) (ws : WM.St) (ht : s.thr tid = some t) (hpc : t.pc = .call .txn w k)
     (hws : WM.step c.wm false s.tm (.run w) = some ws) : Inv c { s with tm := ws } := by
-  simp only [WM.step] at hws
-  cases hw : s.tm.thr w with
-  | none => simp [hw] at hws
-  | some wt =>
-    simp only [hw] at hws
-    have e := WM.stepThr_eff c.wm hcf s.tm ws w wt hw hws
-    have hp := (h.ti tid t ht).pc
+  obtain ⟨hreach, wt, hw, e⟩ := WM.run_eff c.wm hcf s.tm ws w h.tmR hws
+  · have hp := (h.ti tid t ht).pc
     rw [hpc] at hp
     have hck := hp.callKind
     -- the kind of the stepping call record
@@ -166,7 +144,7 @@ theorem Inv.tmRun {c : SnapCfg} (hcf : c.wm.countsFirst = true) {s : St} (h : In
         · subst hx; simp [ht]
         · simp [hx]) ?_ e.du (fun _ _ hx => hx) hkind ?_ e.cntMono (fun _ he => he) ?_ ?_ ?_ ?_
       (Or.inl ⟨rfl, rfl⟩)
-    · exact .step h.tmR (a := .run w) (by show WM.step c.wm true s.tm (.run w) = _; simp only [WM.step, hw]; exact hws)
+    · exact hreach
     · intro x tx hxt hx hpend
       apply e.decEq
       intro hj
@@ -235,7 +213,8 @@ theorem Inv.assign {c : SnapCfg} {s s' : St} (h : Inv c s) (tid : Nat) (t : Txn)
       some { t with commitTs := s.nextTs, pc := .call .txn s.wfresh .cRecord } else s.thr x)
     (hws : WM.step c.wm false s.tm (.begin s.wfresh s.nextTs) = some s'.tm)
     (e2 : s'.locked = s.locked) (e3 : s'.store = s.store) (e4 : s'.nextTs = s.nextTs + 1) : Inv c s' := by
-  have se := WM.spawn_eff c.wm false s.tm s'.tm s.wfresh (.begin s.nextTs) hws
+  have se : WM.SpawnEff s.tm s'.tm s.wfresh (.begin s.nextTs) :=
+    WM.spawn_eff c.wm false s.tm s'.tm s.wfresh (Call.begin s.nextTs) hws
   have hp : t.commitTs = 0 ∧ s.locked = some tid := by
     have := (h.ti tid t ht).pc; rw [hpc] at this; simpa [PcInv] using this
   have hnotbusy : s.tm.sectionBusy = false := by
@@ -250,13 +229,7 @@ theorem Inv.assign {c : SnapCfg} {s s' : St} (h : Inv c s) (tid : Nat) (t : Txn)
     (HasKind.spawn se) (fun _ _ _ _ _ => by rw [se.dec]) (fun _ => by rw [se.cnt]; exact Nat.le_refl _)
     (fun _ he => by rw [e3]; exact he) ?_ ?_ (by rw [se.last, e4]; have := h.next; omega)
     (fun j hj => by rw [se.dec]; exact h.fresh j (by omega)) (Or.inr ⟨hp.1, rfl, e4⟩)
-  · refine .step h.tmR (a := .begin s.wfresh s.nextTs) ?_
-    show WM.step c.wm true s.tm (.begin s.wfresh s.nextTs) = some s'.tm
-    have hfree := se.free
-    simp only [WM.step] at hws ⊢
-    rw [if_pos ⟨hfree, Or.inl hpos, fun _ => ⟨hnotbusy, h.next⟩⟩]
-    rw [if_pos ⟨hfree, Or.inl hpos, fun hf => by cases hf⟩] at hws
-    exact hws
+  · exact WM.begin_reach c.wm s.tm s'.tm s.wfresh s.nextTs hpos hnotbusy h.next h.tmR hws
   · refine ⟨fun hb => ?_, ?_⟩
     · have := (h.ti tid t ht).began hb
       rw [se.du]; exact this
@@ -270,8 +243,14 @@ theorem thrDone_begin_stage (c : WM.WMCfg) (wt : WM.Thr) (i : Nat) (hk : wt.kind
     (hd : thrDone c wt = true) : 4 ≤ wt.stage := by
   unfold thrDone at hd
   rw [hk] at hd
-  simp only [Option.isNone_iff_eq_none, List.getElem?_eq_none_iff] at hd
-  cases hcf : c.countsFirst <;> simp [WM.progOf, hcf] at hd <;> omega
+  simp only [Option.isNone_iff_eq_none] at hd
+  exact WM.begin_done_stage c i wt.stage hd
+
+theorem thrDone_wait (c : WM.WMCfg) (wt : WM.Thr) (i : Nat) (hk : wt.kind = .wait i)
+    (hd : thrDone c wt = true) : wt.returned = true := by
+  unfold thrDone at hd
+  rw [hk] at hd
+  exact hd
 
 /-- a watermark call returns -/
 theorem Inv.callReturn {c : SnapCfg} (hcf : c.wm.countsFirst = true) {s : St} (h : Inv c s) (tid : Nat) (t : Txn)
@@ -303,17 +282,16 @@ theorem Inv.callReturn {c : SnapCfg} (hcf : c.wm.countsFirst = true) {s : St} (h
     · -- WaitForMark returned
       subst hk
       have hnb : ∀ w', t.pc ≠ .call .txn w' .cRecord := fun w' => by rw [hpc]; simp
-      have hret : wt.returned = true := by
-        simp only [callDone, markOf, hw, thrDone, hkind] at hdone; exact hdone
-      have hle := ((WM.W.reachable c.wm true s.tm h.tmR) w wt hw).returnedLe hret
-      rw [hkind] at hle
+      have hret : wt.returned = true :=
+        thrDone_wait c.wm wt _ hkind (by simpa only [callDone, markOf, hw] using hdone)
+      have hle := WM.wait_returned_le c.wm true s.tm h.tmR w wt _ hw hkind hret
       refine h.localStep tid t _ ht (setT_thr _ _ _) rfl rfl rfl rfl rfl hnb ⟨fun _ => hle, ?_⟩
       simp [PcInv, h0]
     · -- txnMark.Begin returned
       subst hk
       have hdn : thrDone c.wm wt = true := by simpa only [callDone, markOf, hw] using hdone
       have hstage := thrDone_begin_stage c.wm wt _ hkind hdn
-      have hcounted := WM.begun_counted c.wm hcf true s.tm h.tmR w wt _ hw hkind (by omega)
+      have hcounted := WM.begun_counted c.wm hcf s.tm h.tmR w wt _ hw hkind (by omega)
       refine h.update tid t _ ht (setT_thr _ _ _) h.tmR (Nat.le_refl _) (fun _ _ hx => hx)
         (fun _ _ hx => hx) (fun _ _ _ _ _ => rfl) (fun _ => Nat.le_refl _) (fun _ he => he)
         ⟨fun hb => hti.began (by simpa using hb), ?_⟩ ?_ h.next h.fresh (Or.inl ⟨rfl, rfl⟩)
@@ -334,8 +312,8 @@ theorem Inv.callReturn {c : SnapCfg} (hcf : c.wm.countsFirst = true) {s : St} (h
       · exact hti.began (by simpa using hb)
       · simp only [PcInv]; exact fun _ => hall
 
-theorem enter_read_shape {c : SnapCfg} {s s' : St} {tid : Nat} {t : Txn} {kind : WM.Kind} {k : Pc}
-    (h : enter c s tid t .read kind k = some s') :
+theorem enter_read_shape {c : SnapCfg} {s s' : St} {tid : Nat} {t : Txn} {call : Call} {k : Pc}
+    (h : enter c s tid t .read call k = some s') :
     (∀ x, s'.thr x = if x = tid then some { t with pc := .call .read s.wfresh k } else s.thr x) ∧
     s'.tm = s.tm ∧ s'.locked = s.locked ∧ s'.store = s.store ∧ s'.nextTs = s.nextTs := by
   unfold enter at h
@@ -344,10 +322,10 @@ theorem enter_read_shape {c : SnapCfg} {s s' : St} {tid : Nat} {t : Txn} {kind :
     exact ⟨fun x => by simp only [setMark, setT, upd], rfl, rfl, rfl, rfl⟩
   · cases h
 
-theorem enter_txn_shape {c : SnapCfg} {s s' : St} {tid : Nat} {t : Txn} {kind : WM.Kind} {k : Pc}
-    (h : enter c s tid t .txn kind k = some s') :
+theorem enter_txn_shape {c : SnapCfg} {s s' : St} {tid : Nat} {t : Txn} {call : Call} {k : Pc}
+    (h : enter c s tid t .txn call k = some s') :
     (∀ x, s'.thr x = if x = tid then some { t with pc := .call .txn s.wfresh k } else s.thr x) ∧
-    WM.step c.wm false s.tm (actOf s.wfresh kind) = some s'.tm ∧
+    WM.step c.wm false s.tm (call.act s.wfresh) = some s'.tm ∧
     s'.locked = s.locked ∧ s'.store = s.store ∧ s'.nextTs = s.nextTs := by
   unfold enter at h
   split at h
@@ -493,7 +471,7 @@ theorem Inv.step {c : SnapCfg} (hc : c.Good) {s s' : St} {a : Act} (h : Inv c s)
         have hnb : ∀ w, t.pc ≠ .call .txn w .cRecord := fun w => by rw [hpc]; simp
         simp only [stepThr, hpc, hrw, if_true] at hs
         obtain ⟨e0, hws, e2, e3, e4⟩ := enter_txn_shape hs
-        refine h.enterTxn tid t _ (.wait t.readTs) ht e0 rfl hws e2 e3 e4 rfl hnb (fun se => ⟨fun hb => ?_, ?_⟩)
+        refine h.enterTxn tid t _ (Call.wait t.readTs) ht e0 rfl hws e2 e3 e4 rfl hnb (fun se => ⟨fun hb => ?_, ?_⟩)
         · rw [se.du]; exact hti.began hb
         · simp only [PcInv]; exact ⟨hp', _, se.self, rfl⟩
       | active => simp only [stepThr, hpc] at hs; cases hs
@@ -615,7 +593,7 @@ theorem Inv.step {c : SnapCfg} (hc : c.Good) {s s' : St} {a : Act} (h : Inv c s)
         have hnb : ∀ w, t.pc ≠ .call .txn w .cRecord := fun w => by rw [hpc]; simp
         simp only [stepThr, hpc] at hs
         obtain ⟨e0, hws, e2, e3, e4⟩ := enter_txn_shape hs
-        refine h.enterTxn tid t _ (.done t.commitTs) ht e0 rfl hws e2 e3 e4 rfl hnb (fun se => ⟨fun hb => ?_, ?_⟩)
+        refine h.enterTxn tid t _ (Call.done t.commitTs) ht e0 rfl hws e2 e3 e4 rfl hnb (fun se => ⟨fun hb => ?_, ?_⟩)
         · rw [se.du]; exact hti.began hb
         · simp only [afterDone, hda, if_true, PcInv]
           exact ⟨hp'.1.1, fun kv hkv => by rw [e3]; exact hp'.2.2 kv hkv, _, se.self, rfl⟩
